@@ -200,7 +200,7 @@ FAILING = [
     ("syntax", "x = flood(e1"),
     ("syntax-2", "x = "),
     ("syntax-3", "flood(e1)"),
-    ("bad-rule", 'x = categorize(e1, [[["A"], {"type": "nope"}]])'),
+    ("wrong-type-4", 'x = period_union(e1, "e2")'),
     ("find-bucket-miss", 'x = find_bucket("zzz")'),
     ("too-many-args", "x = flood(e1, e1)"),
 ]
@@ -266,7 +266,7 @@ def aware(us, off_min):
 # ---------------------------------------------------------------------------
 # one back end (runs in this process for memory/sqlite, in a child process for peewee)
 
-def run_backend(backend, tier, seed, repo):
+def run_backend(backend, tier, seed, repo, have_driver=True):
     """returns a JSON-able report: counts, failing inputs, memory worlds' wire/obs for the model"""
     common.setup_impl_env()
     import iso8601
@@ -276,15 +276,16 @@ def run_backend(backend, tier, seed, repo):
     from aw_query.exceptions import QueryException
     rng = random.Random(seed)
     quick = tier == "quick"
-    rep = {"backend": backend, "failing": [], "counts": {}, "cases": [], "worlds": [], "samples": [], "oracle_dev": 0}
+    rep = {"backend": backend, "failing": [], "counts": {}, "cases": [], "disagreements": [], "samples": [], "oracle_dev": 0}
 
     def count(k, n=1):
         rep["counts"][k] = rep["counts"].get(k, 0) + n
 
     fac = own.make_memory if backend == "memory" else own.SqlFactory(backend)
-    n_rounds = (3 if quick else 40) if backend == "memory" else (2 if quick else 12)
-    n_random = (40 if quick else 400) if backend == "memory" else (15 if quick else 150)
-    n_windows = (60 if quick else 600) if backend == "memory" else (25 if quick else 250)
+    # rounds stay small (the model's heap only grows within a round); thorough = many more rounds
+    n_rounds = (3 if quick else 90) if backend == "memory" else (2 if quick else 30)
+    n_random = (40 if quick else 100) if backend == "memory" else (15 if quick else 60)
+    n_windows = (60 if quick else 120) if backend == "memory" else (25 if quick else 80)
     for rnd in range(n_rounds):
         storage = fac()
         nb = [3, 1, 2][rnd % 3]
@@ -360,8 +361,9 @@ def run_backend(backend, tier, seed, repo):
         # ---- windows
         wins = list(windows_boundary()) if rnd == 0 else []
         for _ in range(n_windows):
-            a = BASE + rng.randrange(-3_000_000, 40_000_000) if rng.random() < 0.7 else BASE + rng.choice([0, 1, 999, 1000, 1001]) + 1_000_000 * rng.randrange(0, 20)
-            b = a + rng.choice([0, 0, 1, 999, 1000, rng.randrange(0, 30_000_000), -rng.randrange(0, 5_000_000)])
+            a = BASE + rng.randrange(-3_000_000, 15_000_000) if rng.random() < 0.7 else BASE + rng.choice([0, 1, 999, 1000, 1001]) + 500_000 * rng.randrange(0, 20)
+            b = a + rng.choice([0, 1, 1000, rng.randrange(0, 30_000_000), rng.randrange(0, 30_000_000),
+                                rng.randrange(5_000_000, 60_000_000), rng.randrange(5_000_000, 60_000_000), -rng.randrange(0, 5_000_000)])
             wins.append((a, rng.choice([0, 60, -60, 330, 345, 765, -720, 840]), b, rng.choice([0, 0, 60, -210])))
         for a, oa, b, ob in wins:
             st, en = aware(a, oa), aware(b, ob)
@@ -372,7 +374,8 @@ def run_backend(backend, tier, seed, repo):
                     rep["failing"].append({"signature": "C12:parse_date-isoformat",
                                            "description": f"iso8601.parse_date(x.isoformat()) != x for x = {x!r}: {y!r}",
                                            "replay": {"x": x.isoformat()}})
-            bk = rng.choice(buckets)
+            full = [x for x in buckets if sizes[x]]
+            bk = rng.choice(full) if full and rng.random() < 0.8 else rng.choice(buckets)
             if world is not None:
                 world.spy_on = False
             direct = ev_rows(ds[bk].get(starttime=st, endtime=en))
@@ -401,8 +404,10 @@ def run_backend(backend, tier, seed, repo):
                                                   "query_bucket": via, "direct": direct, "count_via": vcount, "count_direct": dcount,
                                                   "population_seed": seed, "round": rnd}})
             rep["cases"].append([[backend, rnd, "window", a, oa, b, ob, bk], bool(direct)])
-        if world is not None:
-            rep["worlds"].append({"wire": world.wire, "obs": world.impl_obs, "log": world.log, "lenient": sorted(world.lenient)})
+        if world is not None and have_driver:
+            w = {"wire": world.wire, "obs": world.impl_obs, "log": world.log, "lenient": sorted(world.lenient)}
+            rep["disagreements"] += compare_worlds([w])
+            count("model-steps", len(world.wire))
     if backend != "memory":
         fac.close()
     return rep
@@ -476,7 +481,8 @@ def install_spy(world, storage, rep):
     world.call = call
 
 
-def compare_worlds(ck, worlds):
+def compare_worlds(worlds):
+    out = []
     cases = [sx(w["wire"]) for w in worlds]
     model = common.run_driver("C12", cases)
     for w, mo in zip(worlds, model):
@@ -515,16 +521,17 @@ def compare_worlds(ck, worlds):
                     break
         if bad:
             k, what = bad
-            ck.disagreement("query-reads", f"step {k} ({w['log'][k] if 0 <= k < len(w['log']) else '?'}): model and MemoryStorage differ in: {what}",
-                            {"history": w["log"][max(0, k - 5):k + 1], "model": mo[k] if 0 <= k < len(mo) else None,
-                             "impl": io[k] if 0 <= k < len(io) else None})
+            out.append([f"step {k} ({w['log'][k] if 0 <= k < len(w['log']) else '?'}): model and MemoryStorage differ in: {what}",
+                        {"history": w["log"][max(0, k - 5):k + 1], "model": mo[k] if 0 <= k < len(mo) else None,
+                         "impl": io[k] if 0 <= k < len(io) else None}])
+    return out
 
 
 def main(argv=None):
     if argv is None:
         argv = sys.argv[1:]
     if len(argv) >= 2 and argv[0] == "--child":
-        rep = run_backend(argv[1], argv[2], int(argv[3]), common.REPO)
+        rep = run_backend(argv[1], argv[2], int(argv[3]), common.REPO, have_driver=(argv[4] == "1"))
         json.dump(rep, sys.stdout, default=str)
         return 0
     ck = Check("C12", argv)
@@ -548,11 +555,13 @@ def main(argv=None):
     for backend in ("memory", "sqlite", "peewee"):
         env = dict(os.environ)
         procs[backend] = subprocess.Popen([sys.executable, "-m", "harness.c12", "--child", backend, ck.tier,
-                                           str(ck.rng.randrange(1 << 30))], stdout=subprocess.PIPE, stderr=subprocess.PIPE,
+                                           str(ck.rng.randrange(1 << 30)), "1" if have_driver else "0"], stdout=subprocess.PIPE, stderr=subprocess.PIPE,
                                           text=True, env=env, cwd=common.VERIF)
     # meanwhile: the ownership histories (memory, model) in this process
+    saved, ck.violations = ck.violations, []
     own.ownership_check(ck, "C12", backends=("memory",), have_driver=have_driver,
                         n_random=(100 if ck.tier == "quick" else 4000))
+    own_violations, ck.violations = ck.violations, saved      # reported after the query streams' own findings
     for backend, p in procs.items():
         out, err = p.communicate(timeout=3000)
         if p.returncode != 0:
@@ -568,9 +577,9 @@ def main(argv=None):
         for s in rep["samples"]:
             ck.sample(s)
         ck.coverage.setdefault("oracle_hypothesis_deviation", {})[f"parse_date∘isoformat ({backend} run)"] = rep["oracle_dev"]
-        if backend == "memory" and have_driver:
-            compare_worlds(ck, rep["worlds"])
-            ck.count("memory:model-steps", sum(len(w["wire"]) for w in rep["worlds"]))
+        for desc, replay in rep["disagreements"]:
+            ck.disagreement("query-reads", desc, replay)
+    ck.violations += own_violations[:max(0, 20 - len(ck.violations))]
     ck.assumptions += [
         "PARTIAL: builtins_confined (a built-in touches only what its arguments reach, plus fresh objects) is a hypothesis "
         "about Python's reference semantics, not proved per built-in; supported by the static scan and by the spy on the storage object",
